@@ -156,7 +156,9 @@ def set_configs(tier):
                 if prop == 'S':
                     # the entropy of mixing brings log terms of the composition: keep the two-chemical case for the
                     # successful solve in the quick tier (the others run with one chemical per phase)
-                    modes = ['pos'] + (['pos+maybe'] if (fail == 0 and not multi) or not quick else [])
+                    # (multi-phase with two chemicals per phase needs log(sum_j n_pj / N) = log(sum_j n_pj) - log N for a
+                    # sum of quotients, which the engine's ground log axioms do not give: one chemical per phase there)
+                    modes = ['pos'] + (['pos+maybe'] if not multi and (fail == 0 or not quick) else [])
                 elif multi:
                     modes = ['first-row-pos'] + ([] if quick else ['pos+maybe'])
                 else:
@@ -293,7 +295,7 @@ def mix_configs(tier):
         for r in recvs:
             for q in (['none', 'kw', 'heat'] if quick else ['none', 'kw', 'heat', 'kw+heat', 'falsy']):
                 for opt in ['', 'conserve_phases']:
-                    if opt and (quick and q != 'kw'):
+                    if opt and quick and q != 'kw' and not (q == 'heat' and inlets is base[0][0] and r != 'g'):
                         continue
                     nm = f"recv={r};in=" + '+'.join(f'{k}{p}:{m}' for k, p, m in inlets) + f';Q={q}' + (f';{opt}' if opt else '')
                     out.append({'name': nm, 'recv': r, 'inlets': inlets, 'Q': q, 'fail': 0, 'opt': opt})
@@ -302,7 +304,7 @@ def mix_configs(tier):
         for r in recvs:
             for fail in [1, 2]:
                 if len(r) > 1 and fail == 2: continue
-                for q in (['kw'] if quick else ['none', 'kw', 'heat']):
+                for q in ((['kw', 'heat'] if inlets is base[0][0] and r != 'g' else ['kw']) if quick else ['none', 'kw', 'heat']):
                     nm = f"recv={r};in=" + '+'.join(f'{k}{p}:{m}' for k, p, m in inlets) + f';Q={q};fail={fail}'
                     out.append({'name': nm, 'recv': r, 'inlets': inlets, 'Q': q, 'fail': fail, 'opt': ''})
     return out
@@ -389,8 +391,9 @@ def sep_configs(tier):
             if not eb and quick and (r, o) not in (('l', ('l', 'B')), ('gl', ('l', 'A'))):
                 continue
             multi = len(r) > 1
-            first = ('first-row-pos' if multi else 'pos+maybe', 'pos')
-            for sm, om in ([first] if quick or not eb else [first, ('pos+maybe', 'pos')] + ([] if multi else [('pos+pos', 'pos+maybe')])):
+            first = ('first-row-pos' if multi and len(o[0]) == 1 else 'pos+maybe', 'pos')
+            more = [('pos+maybe', 'pos')] if multi and first[0] != 'pos+maybe' else ([] if multi else [('pos+pos', 'pos+maybe')])
+            for sm, om in ([first] if quick or not eb else [first] + more):
                 out.append({'name': f'self={r}:{sm};other={o[0]}{o[1]}:{om};eb={eb}', 'self': r, 'other': list(o), 'eb': eb,
                             'smode': sm, 'omode': om})
     return out
